@@ -22,7 +22,16 @@
 //!      number, names, signing times, algorithm spellings) x listing state x instants;
 //!      repeated validate_at calls on one decoded value over all pairs / triples of
 //!      (key, instant) settings (history independence); instants down to 1 ns;
-//!  (c) every single-bit flip of one library-created and two foreign messages.
+//!  (c) every single-bit flip of one library-created and two foreign messages;
+//!  (d) what a single evaluation cannot see:
+//!      `signer.sequences` - the signer as a stateful participant: all sequences of <= 4 operations over
+//!      {new key, destroy_key, get_key_info, sign, create a message} on the real SoftSigner (keys imported
+//!      and keys generated) and on the pool signer, against a model handle -> public key at issue time;
+//!      `history.predecessors` - on a new OS thread one predecessor (a failure at every distinct stage,
+//!      every size, same identifiers with other keys, failing creations), then every subject twice;
+//!      `environment` - child processes under TZ west / east of UTC; the wall clock read again across a
+//!      second boundary and after a pause; create functions with a signer sleeping across a second;
+//!      `interactions.time` - EE window x CRL window x signing time x evaluation instant, independently.
 //!
 //! Reference model: the condition vector itself (valid <=> all true).
 
@@ -972,8 +981,8 @@ fn exec_seq<S: Signer>(signer: &S, new_key: &dyn Fn(usize) -> Result<(S::KeyId, 
                         if let Some((_, Verdict::Panic(p))) = vs.iter().find(|(_, v)| matches!(v, Verdict::Panic(_))) { return Err(("C10.no_panic", p.clone())) }
                         let under: Vec<usize> = vs.iter().filter(|(_, v)| v.accepted()).map(|(j, _)| *j).collect();
                         if !alive { return Err(("C10.signer.destroyed", format!("a message was created under the destroyed handle #{i} (it validates under the keys recorded for handles {under:?})"))) }
-                        if !under.contains(&i) { return Err(("C10.signer.created.own_key", format!("the message created under handle #{i} does not validate under the public key recorded for that handle when it was issued ({}); it validates under the keys recorded for handles {under:?}", trunc(&vs[i].1.show(), 120)))) }
-                        if under != [i] { return Err(("C10.signer.created.other_key", format!("the message created under handle #{i} validates under the keys recorded for handles {under:?}"))) }
+                        if under.iter().any(|&j| j != i) { return Err(("C10.signer.created.other_key", format!("the message created under handle #{i} validates under the public keys recorded for handles {under:?} when they were issued{}", if under.contains(&i) { String::new() } else { format!(", not under that of #{i} ({})", trunc(&vs[i].1.show(), 120)) }))) }
+                        if under != [i] { return Err(("C10.signer.created.own_key", format!("the message created under handle #{i} does not validate under the public key recorded for that handle when it was issued ({}), nor under any other recorded key", trunc(&vs[i].1.show(), 120)))) }
                         Ok("message-validates-under-named-key-only")
                     }
                     (Err(e), true) => Err(("C10.signer.created.own_key", format!("creating a message under the live handle #{i} fails: {e}"))),
@@ -1007,19 +1016,26 @@ impl SignerKind {
 fn space_signer_sequences(ctx: &Ctx, fx: &Fx) {
     let thorough = ctx.tier.is_thorough();
     let sp = ctx.space("signer.sequences",
-        "the signer as a stateful participant: explicit-state exploration of operation sequences over {new key, destroy_key(#i), get_key_info(#i), sign(#i) (the trait method, bare data), create a message under #i (SignedMessage::create / ProvisioningCms::create / PublicationCms::create)}, #i = the i-th handle the signer issued, at most 3 handles, every step judged against a reference model (handle -> public key recorded when the handle was issued, + destroyed or not): a message created under a live handle validates under exactly the key recorded for that handle and under no other recorded key (live or destroyed); sign verifies (aws-lc directly) under that key alone; get_key_info returns it; every operation on a destroyed handle fails; a new handle never names an existing key. Three signers: (A) the real rpki::crypto::softsigner::SoftSigner with keys imported through key_from_pem (the model knows the public key independently; the one-off key comes from the pool) started with 0, 1, 2 or 3 keys, all sequences of <= 4 operations; (B) the plain SoftSigner with create_key and sign_one_off generating RSA keys, all sequences of <= 4 operations from the empty signer (thorough: also <= 5 without the bare sign); (C) the harness' PoolSigner (whose destroy_key is a no-op: handles stay live) from 3 keys, <= 3 operations (thorough 4) - a failure here too means the message path, not the signer, is at fault. quick: message kind = (position + handle) mod 3 and no bare sign in (A); thorough: every kind and the bare sign at every step. non-trivial = sequences in which a handle is observed after ANOTHER handle was destroyed, or a destroyed handle is addressed");
+        "the signer as a stateful participant: explicit-state exploration of operation sequences over {new key, destroy_key(#i), get_key_info(#i), sign(#i) (the trait method, bare data), create a message under #i (SignedMessage::create / ProvisioningCms::create / PublicationCms::create)}, #i = the i-th handle the signer issued, at most 3 handles, each sequence on an OS thread of its own, every step judged against a reference model (handle -> public key recorded when the handle was issued, + destroyed or not): a message created under a live handle validates under exactly the key recorded for that handle and under no other recorded key (live or destroyed); sign verifies (aws-lc directly) under that key alone; get_key_info returns it; every operation on a destroyed handle fails; a new handle never names an existing key. Three signers: (A) the real rpki::crypto::softsigner::SoftSigner with keys imported through key_from_pem (the model knows the public key independently; the one-off key comes from the pool) started with 0, 1, 2 or 3 keys, all sequences of <= 4 operations; (B) the plain SoftSigner with create_key and sign_one_off generating RSA keys, all sequences of <= 4 operations from the empty signer; (C) the harness' PoolSigner (whose destroy_key is a no-op: handles stay live) from 3 keys, <= 3 operations (thorough 4) - a failure here too means the message path, not the signer, is at fault. The message kind is (position + handle) mod 3. quick: no bare sign (creating a message signs twice under the handle anyway); thorough: with the bare sign, and also all sequences of <= 5 operations without it in (B) and, from 0, 1 or 2 keys, in (A). non-trivial = sequences in which a handle is observed after ANOTHER handle was destroyed, or a destroyed handle is addressed");
     let pool_p8: Vec<Vec<u8>> = (0..3).map(|i| std::fs::read(format!("{}/keys/rsa-{i}.p8", verif_dir())).unwrap_or_default()).collect();
     if pool_p8.iter().any(|k| k.is_empty()) { ctx.machinery_error("signer.sequences: cannot read the pool keys"); sp.done(false, "not run"); return }
     let mut jobs: Vec<(SignerKind, usize, Vec<SOp>)> = Vec::new();
-    let a_alpha = SeqAlphabet { max_handles: 3, raw: thorough, all_kinds: thorough };
-    for start in 0..=3 { for s in signer_leaves(start, 4, a_alpha) { jobs.push((SignerKind::SoftImported, start, s)) } }
-    for s in signer_leaves(0, 4, SeqAlphabet { max_handles: 3, raw: true, all_kinds: false }) { jobs.push((SignerKind::SoftGenerated, 0, s)) }
-    if thorough { for s in signer_leaves(0, 5, SeqAlphabet { max_handles: 3, raw: false, all_kinds: false }) { jobs.push((SignerKind::SoftGenerated, 0, s)) } }
-    for s in signer_leaves(3, if thorough { 4 } else { 3 }, SeqAlphabet { max_handles: 3, raw: true, all_kinds: thorough }) { jobs.push((SignerKind::Pool, 3, s)) }
+    let plain = SeqAlphabet { max_handles: 3, raw: false, all_kinds: false };
+    let with_raw = SeqAlphabet { max_handles: 3, raw: true, all_kinds: false };
+    for start in 0..=3 {
+        for s in signer_leaves(start, 4, if thorough { with_raw } else { plain }) { jobs.push((SignerKind::SoftImported, start, s)) }
+        if thorough && start < 3 { for s in signer_leaves(start, 5, plain) { jobs.push((SignerKind::SoftImported, start, s)) } }
+    }
+    for s in signer_leaves(0, 4, if thorough { with_raw } else { plain }) { jobs.push((SignerKind::SoftGenerated, 0, s)) }
+    if thorough { for s in signer_leaves(0, 5, plain) { jobs.push((SignerKind::SoftGenerated, 0, s)) } }
+    for s in signer_leaves(3, if thorough { 4 } else { 3 }, if thorough { with_raw } else { plain }) { jobs.push((SignerKind::Pool, 3, s)) }
     // the key generations are the expensive part: start them first
     jobs.sort_by_key(|(k, _, _)| match k { SignerKind::SoftGenerated => 0, _ => 1 });
+    let spent: [AtomicUsize; 3] = [AtomicUsize::new(0), AtomicUsize::new(0), AtomicUsize::new(0)];
     let results: Vec<SeqOutcome> = jobs.par_iter().map(|(kind, start, seq)| {
-        match kind {
+        let t = std::time::Instant::now();
+        // every sequence on an OS thread of its own: per-thread state left behind by other sequences cannot reach it
+        let r = std::thread::scope(|sc| sc.spawn(|| match kind {
             SignerKind::SoftImported => {
                 let signer = SoftPoolOneOff { soft: SoftSigner::new(), pool: &fx.s };
                 exec_seq(&signer, &|ord| signer.soft.key_from_pem(&pool_p8[ord]).map(|id| (id, Some(fx.s.public(ord)))).map_err(|e| e.to_string()), true, *start, seq, &fx.content)
@@ -1032,8 +1048,11 @@ fn space_signer_sequences(ctx: &Ctx, fx: &Fx) {
                 let signer = PoolSigner::load();
                 exec_seq(&signer, &|ord| signer.create_key(PublicKeyFormat::Rsa).map(|id| (id, Some(fx.s.public(ord)))).map_err(|e| e.to_string()), false, *start, seq, &fx.content)
             }
-        }
+        }).join()).unwrap_or_else(|_| SeqOutcome { fail: Some(("C10.no_panic", None, "the sequence's thread panicked outside the guard".into())), ..SeqOutcome::default() });
+        spent[*kind as usize].fetch_add(t.elapsed().as_micros() as usize, Ordering::Relaxed);
+        r
     }).collect();
+    if std::env::var_os("C10_TIMING").is_some() { eprintln!("timing: signer.sequences thread time (A) {:.1} s, (B) {:.1} s, (C) {:.1} s", spent[0].load(Ordering::Relaxed) as f64 / 1e6, spent[1].load(Ordering::Relaxed) as f64 / 1e6, spent[2].load(Ordering::Relaxed) as f64 / 1e6) }
     let mut fails: BTreeSet<(String, String, String)> = BTreeSet::new();
     let mut per_signer: BTreeMap<&'static str, (u64, u64, u64)> = BTreeMap::new();
     let mut states: BTreeSet<(usize, u8)> = BTreeSet::new();
@@ -1049,7 +1068,7 @@ fn space_signer_sequences(ctx: &Ctx, fx: &Fx) {
         if let Some((oracle, at, detail)) = &r.fail {
             e.2 += 1;
             let upto = at.map(|a| a + 1).unwrap_or(0);
-            let wit = format!("signer={} started with {start} keys (#0..), then: {}", kind.name(), if upto == 0 { "(set-up)".to_string() } else { seq[..upto].iter().map(|o| o.show()).collect::<Vec<_>>().join(", ") });
+            let wit = format!("signer={}; {upto} operations on a signer holding {start} keys (#0..): {}", kind.name(), if upto == 0 { "(set-up)".to_string() } else { seq[..upto].iter().map(|o| o.show()).collect::<Vec<_>>().join(", ") });
             fails.insert((oracle.to_string(), wit, match at { Some(a) => format!("step {}: {detail}", a + 1), None => detail.clone() }));
         }
     }
@@ -1057,9 +1076,9 @@ fn space_signer_sequences(ctx: &Ctx, fx: &Fx) {
     sp.set("sequences_steps_failures_per_signer", serde_json::json!(per_signer.iter().map(|(k, (n, s, f))| format!("{k}: {n} sequences, {s} steps, {f} sequences failing")).collect::<Vec<_>>()));
     sp.set("model_states_reached", serde_json::json!(states.iter().map(|(n, m)| format!("{n} handles, live mask {m:03b}")).collect::<Vec<_>>()));
     sp.set("rsa_key_generations", serde_json::json!(keygens));
-    sp.sample_str(|| format!("signer={} started with 3 keys, then: destroy_key(#0), SignedMessage::create(#1) -> validates under the key recorded for #1 only", SignerKind::SoftImported.name()));
-    sp.sample_str(|| format!("signer={} started with 0 keys, then: new-key, new-key, destroy_key(#0), get_key_info(#1) -> the key recorded for #1", SignerKind::SoftGenerated.name()));
-    sp.done(true, &format!("{} maximal sequences ({} model states): (A) 4 start states x all sequences of 4 ops, (B) all sequences of {} ops from the empty signer ({} RSA key generations), (C) all sequences of {} ops from 3 keys", jobs.len(), states.len(), if thorough { "4 and 5" } else { "4" }, keygens, if thorough { 4 } else { 3 }));
+    sp.sample_str(|| format!("signer={}; 2 operations on a signer holding 3 keys (#0..): destroy_key(#0), SignedMessage::create(#1) -> validates under the key recorded for #1 only", SignerKind::SoftImported.name()));
+    sp.sample_str(|| format!("signer={}; 4 operations on a signer holding 0 keys (#0..): new-key, new-key, destroy_key(#0), get_key_info(#1) -> the key recorded for #1", SignerKind::SoftGenerated.name()));
+    sp.done(true, &format!("{} maximal sequences ({} model states): (A) 4 start states x all sequences of {} ops, (B) all sequences of {} ops from the empty signer ({} RSA key generations), (C) all sequences of {} ops from 3 keys", jobs.len(), states.len(), if thorough { "4 (with bare sign; and of 5 from 0-2 keys)" } else { "4" }, if thorough { "4 (with bare sign) and 5" } else { "4" }, keygens, if thorough { 4 } else { 3 }));
 }
 
 //------------ subjects and predecessors ---------------------------------------------------------------
@@ -1225,7 +1244,7 @@ fn predecessors<'a>(fx: &'a Fx, subj: &'a [Subject]) -> Vec<Pred<'a>> {
 fn space_history_predecessors(ctx: &Ctx, fx: &Fx, subj: &[Subject]) {
     let thorough = ctx.tier.is_thorough();
     let sp = ctx.space("history.predecessors",
-        "what happened before on the same thread: subjects = representative evaluations of every oracle family (foreign messages accepted with 3 / 4 / 6 / long signed attributes through every decoder, under another key, outside the window, one violation of every condition, messages sharing all identifiers with an accepted one but not the keys / the content, truncated octets, provisioning messages, a library-created message, the three create functions followed by validation). Predecessors = every subject; every violation (digest 4, signature 4, EE 4, CRL 7, profile 6) with short and long signed attributes, strict and relaxed, i.e. a failure at every distinct stage (decode, digest, signature, EE certificate, CRL, revocation); messages with 10 sizes of signed attributes from ~100 to ~65500 octets accepted / failing at the signature / at the digest; the accepted messages cut at every field boundary of the outer five layers (decode errors after every prefix); the same-identifier twins under both keys; the create functions with a signer failing in each of its calls; a 100000-octet created message. For every predecessor, on a NEW OS thread: the predecessor, then every subject, then every subject in reverse order; each observation (full verdict text) must equal the one the subject gives as the first thing on a thread of its own, and that one must be what the property says. thorough: all ordered pairs of predecessors. non-trivial = predecessor sequences");
+        "what happened before on the same thread: subjects = representative evaluations of every oracle family (foreign messages accepted with 3 / 4 / 6 / long signed attributes through every decoder, under another key, outside the window, one violation of every condition, messages sharing all identifiers with an accepted one but not the keys / the content, truncated octets, provisioning messages, a library-created message, the three create functions followed by validation). Predecessors = every subject; every violation (digest 4, signature 4, EE 4, CRL 7, profile 6) with short and long signed attributes, strict and relaxed, i.e. a failure at every distinct stage (decode, digest, signature, EE certificate, CRL, revocation); messages with 10 sizes of signed attributes from ~100 to ~65500 octets accepted / failing at the signature / at the digest; the accepted messages cut at every field boundary of the outer five layers (decode errors after every prefix); the same-identifier twins under both keys; the create functions with a signer failing in each of its calls; a 100000-octet created message. For every predecessor, on a NEW OS thread: the predecessor, then every subject, then every subject in reverse order; each observation (full verdict text) must equal the one the subject gives as the first thing on a thread of its own, and that one must be what the property says. thorough: also all ordered pairs of the first five predecessors of every family. non-trivial = predecessor sequences");
     let preds = predecessors(fx, subj);
     // baseline: every subject first thing on its own thread
     let base: Vec<String> = on_fresh_threads(subj.iter().map(|s| Box::new(move || observe(fx, s)) as Box<dyn FnOnce() -> String + Send>).collect())
@@ -1236,7 +1255,10 @@ fn space_history_predecessors(ctx: &Ctx, fx: &Fx, subj: &[Subject]) {
         if let Some(w) = s.want { if w != obs_accepted(s, o) { fail("C10.history.fresh", format!("subject alone on a new thread: {}", s.label), format!("the property says {}, observed: {}", if w { "accepted" } else { "rejected" }, trunc(o, 200))) } }
     }
     let mut seqs: Vec<Vec<usize>> = (0..preds.len()).map(|i| vec![i]).collect();
-    if thorough { for a in 0..preds.len() { for b in 0..preds.len() { seqs.push(vec![a, b]) } } }
+    // thorough: all ordered pairs of the first five predecessors of every family
+    let mut reps: Vec<usize> = Vec::new();
+    { let mut seen: BTreeMap<&'static str, usize> = BTreeMap::new(); for (i, p) in preds.iter().enumerate() { let n = seen.entry(p.family).or_insert(0); if *n < 5 { reps.push(i) } *n += 1; } }
+    if thorough { for &a in &reps { for &b in &reps { seqs.push(vec![a, b]) } } }
     let preds_ref = &preds;
     let jobs: Vec<Box<dyn FnOnce() -> (Vec<String>, Vec<String>, Vec<String>) + Send>> = seqs.iter().map(|sq| {
         let sq = sq.clone();
@@ -1256,7 +1278,7 @@ fn space_history_predecessors(ctx: &Ctx, fx: &Fx, subj: &[Subject]) {
             Err(p) => fail("C10.no_panic", wit(), p.clone()),
             Ok((own, fwd, rev)) => {
                 sp.evals((own.len() + fwd.len() + rev.len()) as u64);
-                for o in own { stages.insert(format!("{}: {}", preds[*sq.last().unwrap()].family, trunc(o, 70))); }
+                for o in own { stages.insert(format!("{}: {}", preds[*sq.last().unwrap()].family, trunc(o.split(" (at position").next().unwrap_or(o), 90))); }
                 let n = subj.len();
                 for i in 0..n {
                     for (order, got) in [("in order", &fwd[i]), ("in reverse order", &rev[n - 1 - i])] {
@@ -1272,7 +1294,7 @@ fn space_history_predecessors(ctx: &Ctx, fx: &Fx, subj: &[Subject]) {
     sp.set("predecessors", serde_json::json!(preds.len()));
     sp.set("distinct_predecessor_outcomes", serde_json::json!(stages));
     sp.sample_str(|| format!("new thread, first: {}; then {} subjects in order and in reverse: all as on a thread of their own", preds[preds.len() / 2].label, subj.len()));
-    sp.done(true, &format!("{} predecessor sequences ({} predecessors{}) x {} subjects x 2 orders", seqs.len(), preds.len(), if thorough { ", singly and all ordered pairs" } else { "" }, subj.len()));
+    sp.done(true, &format!("{} predecessor sequences ({} predecessors{}) x {} subjects x 2 orders", seqs.len(), preds.len(), if thorough { format!(", singly and all ordered pairs of {} representatives", reps.len()) } else { String::new() }, subj.len()));
 }
 
 //------------ environment ---------------------------------------------------------------------------------
@@ -1301,8 +1323,9 @@ fn env_lines(fx: &Fx, subj: &[Subject]) -> Vec<String> {
         }));
         v.push(format!("wall-clock creator {} -> {}", MSG_KINDS[kind as usize], match r { Ok(Ok(t)) => t, Ok(Err(e)) => format!("create failed: {e}"), Err(p) => p }));
     }
+    let before = sys_now();
     let t = Time::now().timestamp() as f64;
-    v.push(format!("Time::now() is the system clock: {}", (t - sys_now()).abs() <= 2.0));
+    v.push(format!("Time::now() is the system clock: {}", before - 1.5 <= t && t <= sys_now() + 0.5));
     v.iter().map(|l| l.replace('\n', " ")).collect()
 }
 
@@ -1323,7 +1346,7 @@ fn env_child() -> ! {
 
 fn space_environment(ctx: &Ctx, fx: &Fx, subj: &[Subject]) {
     let sp = ctx.space("environment",
-        "(a) time zone: the subject set, the windows SignedMessage::create writes for all 36 validity windows over the UTCTime/GeneralizedTime switch instants (read back with the harness' own reader) and the wall-clock creators (notBefore five minutes before the system clock, ten-minute window, validate() accepts) evaluated in child processes of this binary started with TZ=UTC0, TZ=XXX+11 (west) and TZ=YYY-14 (east): every line equals the line of this process. (b) the wall clock read again: on one thread every clock-reading variant (SignedMessage / PublicationCms / ProvisioningCms validate, IdCert validate_ee / validate_ta) is called once, then after a 1.2 s pause on objects whose window starts at the then-current second (must be accepted, and equal validate_at(Time::now())) and whose window ended one second after the first call (must be rejected). (c) slow signer: the three create functions with a signer sleeping 1.1 s - across a second boundary - in each of its calls: EE and CRL windows coincide, the message validates at both bounds and in the middle of its window and with validate() right away, not under another key. (b) and (c) run on dedicated threads in parallel. non-trivial = comparisons under a non-UTC zone, after the pause, with a sleeping signer");
+        "(a) time zone: the subject set, the windows SignedMessage::create writes for all 36 validity windows over the UTCTime/GeneralizedTime switch instants (read back with the harness' own reader) and the wall-clock creators (notBefore five minutes before the system clock, ten-minute window, validate() accepts) evaluated in child processes of this binary started with TZ=UTC0, TZ=XXX+11 (west) and TZ=YYY-14 (east): every line equals the line of this process. (b) the wall clock read again: on one thread every clock-reading variant (SignedMessage / PublicationCms / ProvisioningCms validate, IdCert validate_ee / validate_ta) is called once shortly before a whole second B and again shortly after B on objects whose window starts at B (must be accepted, and equal validate_at(Time::now())) and whose window ends at B (must be rejected); then after a 1.2 s pause on objects whose window starts at the then-current second (accepted) and whose window ended one second after the earlier calls (rejected). (c) slow signer: the three create functions with a signer sleeping 1.1 s - across a second boundary - in each of its calls: EE and CRL windows coincide, the message validates at both bounds and in the middle of its window and with validate() right away, not under another key. (b) and (c) run on dedicated threads in parallel. non-trivial = comparisons under a non-UTC zone, after the pause, with a sleeping signer");
     let s = &fx.s;
     let exe = std::env::current_exe();
     // (a) children first: they run while the threads below sleep
@@ -1357,17 +1380,37 @@ fn space_environment(ctx: &Ctx, fx: &Fx, subj: &[Subject]) {
     let (clock_rows, slow_rows): (Result<ClockRows, String>, Vec<Result<Vec<String>, String>>) = std::thread::scope(|sc| {
         let clock = sc.spawn(|| guard(|| -> Result<ClockRows, String> {
             let mut rows: ClockRows = Vec::new();
-            let t1 = sys_now();
-            let warm = objects(t1 as i64 - 3600, t1 as i64 + 3600);
-            for (route, r) in wall(&warm) { rows.push(("first call, window of two hours around the system clock".into(), route, r, true)) }
+            let nap = |ms: u64| std::thread::sleep(std::time::Duration::from_millis(ms));
+            let warm = { let t = sys_now() as i64; objects(t - 3600, t + 3600) };
+            // (b1) a whole second B falls between a first call and the calls judged, less than half a second apart
+            let mut found = false;
+            for _attempt in 0..6 {
+                let mut t0 = sys_now();
+                let mut spins = 0;
+                while (t0.fract() < 0.55 || t0.fract() > 0.8) && spins < 400 { nap(5); t0 = sys_now(); spins += 1 }
+                let b = t0.floor() as i64 + 1;
+                let (starting, ending) = (objects(b, b + 600), objects(b - 600, b));
+                let first = wall(&warm);
+                if sys_now() >= b as f64 { continue } // too late (the machine is busy): try the next second
+                while sys_now() < b as f64 + 0.01 { nap(2) }
+                let (srows, erows) = (wall(&starting), wall(&ending));
+                if sys_now() < b as f64 + 0.01 { continue } // the clock was set back
+                for (route, r) in first { rows.push(("first call, window of two hours around the system clock".into(), route, r, true)) }
+                for (route, r) in srows { rows.push(("less than a second after a first call, window starting at the whole second in between".into(), route, r, true)) }
+                for (route, r) in erows { rows.push(("less than a second after a first call, window ending at the whole second in between".into(), route, r, false)) }
+                found = true;
+                break
+            }
+            if !found { return Err("no second boundary could be hit between two calls (machine too busy)".into()) }
+            // (b2) a long pause
             let t1 = sys_now();
             let ending = objects(t1 as i64 - 600, t1 as i64 + 1);
-            std::thread::sleep(std::time::Duration::from_millis(1200));
+            nap(1200);
             let t2 = sys_now();
             if t2 - t1 < 1.15 { return Err(format!("the system clock advanced {:.3} s during a 1.2 s sleep", t2 - t1)) }
             let starting = objects(t2 as i64, t2 as i64 + 600);
             for (route, r) in wall(&starting) { rows.push(("after a 1.2 s pause, window starting at the current second".into(), route, r, true)) }
-            for (route, r) in wall(&ending) { rows.push(("after a 1.2 s pause, window that ended one second after the first call".into(), route, r, false)) }
+            for (route, r) in wall(&ending) { rows.push(("after a 1.2 s pause, window that ended one second after the earlier calls".into(), route, r, false)) }
             Ok(rows)
         }).and_then(|x| x));
         let slow_h: Vec<_> = slow.iter().map(|&(kind, at)| sc.spawn(move || guard(|| -> Vec<String> {
@@ -1429,7 +1472,7 @@ fn space_environment(ctx: &Ctx, fx: &Fx, subj: &[Subject]) {
     sp.set("lines_per_zone", serde_json::json!(here.len()));
     sp.set("slow_signer_runs", serde_json::json!(slow.iter().map(|(k, at)| format!("{} call #{at}", MSG_KINDS[*k as usize])).collect::<Vec<_>>()));
     sp.sample_str(|| format!("TZ=YYY-14: {}", here[here.len() - 4]));
-    sp.done(true, &format!("3 time zones x {} lines; 5 clock-reading variants x 3 windows around a 1.2 s pause; {} slow-signer runs", here.len(), slow.len()));
+    sp.done(true, &format!("3 time zones x {} lines; 5 clock-reading variants x (1 first call + 2 windows across a second boundary + 2 windows around a 1.2 s pause); {} slow-signer runs", here.len(), slow.len()));
 }
 
 //------------ time interactions ---------------------------------------------------------------------------------
@@ -1479,6 +1522,7 @@ fn space_time_interactions(ctx: &Ctx, fx: &Fx) {
 
 fn main() {
     if std::env::args().any(|a| a == ENV_CHILD_ARG) { env_child() }
+    let t_start = std::time::Instant::now();
     let ctx = Ctx::new("C10", "exploration");
     ctx.assume("aws-lc RSA PKCS#1 v1.5 / SHA-256 / SHA-1 are correct (used by both the library and the independent signer)");
     ctx.assume("keys are the 8 fixed pool keys; the library's one-off key is pool key 7");
@@ -2478,11 +2522,16 @@ fn main() {
     }
 
     //--- (d) round 8: the signer as a participant, predecessors on the same thread, environment, time interactions
+    let timing = std::env::var_os("C10_TIMING").is_some();
+    let t = t_start;
+    let cpu = || { let mut ts = libc::timespec { tv_sec: 0, tv_nsec: 0 }; unsafe { libc::clock_gettime(libc::CLOCK_PROCESS_CPUTIME_ID, &mut ts); } ts.tv_sec as f64 + ts.tv_nsec as f64 / 1e9 };
+    let lap = |what: &str| if timing { eprintln!("timing: {what} done at {:.1} s wall, {:.1} s process CPU", t.elapsed().as_secs_f64(), cpu()) };
+    lap("earlier spaces");
     let subj = subjects(&fx);
-    space_signer_sequences(&ctx, &fx);
-    space_history_predecessors(&ctx, &fx, &subj);
-    space_environment(&ctx, &fx, &subj);
-    space_time_interactions(&ctx, &fx);
+    space_signer_sequences(&ctx, &fx); lap("signer.sequences");
+    space_history_predecessors(&ctx, &fx, &subj); lap("history.predecessors");
+    space_environment(&ctx, &fx, &subj); lap("environment");
+    space_time_interactions(&ctx, &fx); lap("interactions.time");
 
     flush_fails(&ctx);
     ctx.finish();
